@@ -1,6 +1,8 @@
 """C15: overload cases (input of spec/Overload.tla) and their rendering to a Guppy module.
 
-case = {"id", "vs": [{"ps": [ty...], "ret": ty, "decl": bool}], "args": [argform...], "mode": "synth"|ty}
+case = {"id", "vs": [variant...], "args": [argform...], "mode": "synth"|ty}
+variant = {"k": "fn", "ps": [ty...], "ret": ty, "decl": bool}
+        | {"k": "set", "vs": [fn variants]}      (a variant that is itself an overloaded function)
 ty in nat int float bool T;  argform in vnat vint vfloat vbool lpos lneg lfloat lbool.
 """
 from __future__ import annotations
@@ -37,6 +39,7 @@ REJECTED = [(a, p) for a in ARGS for p in CONC if not _accepts(a, p)]
 
 def fix_decl(v: dict) -> dict:
     """A variant whose result is T without a T parameter cannot have a body: declare it."""
+    v.setdefault("k", "fn")
     if v["ret"] == "T" and "T" not in v["ps"]:
         v["decl"] = True
     return v
@@ -49,8 +52,8 @@ def small_exhaustive() -> list:
     for p1, p2 in itertools.product(sigs, sigs):
         for args in [[]] + [[a] for a in ARGS]:
             for mode in ("synth", "int", "float"):
-                out.append({"vs": [{"ps": list(p1), "ret": "int", "decl": False},
-                                   {"ps": list(p2), "ret": "int", "decl": False}],
+                out.append({"vs": [{"k": "fn", "ps": list(p1), "ret": "int", "decl": False},
+                                   {"k": "fn", "ps": list(p2), "ret": "int", "decl": False}],
                             "args": list(args), "mode": mode})
     return out
 
@@ -66,7 +69,7 @@ def fallthrough_family(rng: random.Random, n: int | None) -> list:
         out = out[:n]
     cases = []
     for a1, p1, a2, p2, q1, q2 in out:
-        vs = [{"ps": [p1, p2], "ret": rng.choice(CONC), "decl": False},
+        vs = [{"k": "fn", "ps": [p1, p2], "ret": rng.choice(CONC), "decl": False},
               fix_decl({"ps": [q1, q2], "ret": rng.choice(TYS), "decl": rng.random() < 0.15})]
         if rng.random() < 0.35:
             vs.append(fix_decl({"ps": [rng.choice(TYS), rng.choice(TYS)], "ret": rng.choice(TYS), "decl": False}))
@@ -85,34 +88,90 @@ def random_case(rng: random.Random) -> dict:
         vs.append(fix_decl({"ps": [rng.choice(TYS) for _ in range(ar)], "ret": rng.choice(TYS),
                             "decl": rng.random() < 0.2}))
     ar = len(rng.choice(vs)["ps"]) if rng.random() < 0.85 else rng.choice((0, 1, 2))
+    if rng.random() < 0.3:  # one variant is itself an overloaded function
+        k = rng.randrange(nv)
+        inner = [vs[k]] + [fix_decl({"ps": [rng.choice(TYS) for _ in range(rng.choice((ar, ar, 0, 1, 2)))],
+                                     "ret": rng.choice(TYS), "decl": rng.random() < 0.2})
+                           for _ in range(rng.choice((1, 2)))]
+        rng.shuffle(inner)
+        vs[k] = {"k": "set", "vs": inner}
     args = [rng.choice(ARGS) for _ in range(ar)]
     mode = "synth" if rng.random() < 0.5 else rng.choice(CONC)
     return {"vs": vs, "args": args, "mode": mode}
 
 
-def render(case: dict) -> str:
-    """Module with the variants v1..vn, the overloaded f, main_o (call through f) and main_d<k>
-    (direct call of v<k>) for every k."""
-    L = ['T = guppy.type_var("T")', ""]
+def nested_family(rng: random.Random, n: int | None) -> list:
+    """Sets with a nested overloaded function whose own variants decide: outer = [A, SET(w1, w2), B] (SET at any
+    position), arity 1-2; A mostly does not accept, B is a generic catch-all or a non-accepting function."""
+    out = []
+    for ar in (1, 2):
+        for args in itertools.product(ARGS, repeat=ar):
+            for w_ps in itertools.product(CONC, repeat=ar):
+                out.append((list(args), list(w_ps)))
+    rng.shuffle(out)
+    if n is not None:
+        out = out[:n]
+    cases = []
+    for args, w_ps in out:
+        ar = len(args)
+        w1 = fix_decl({"ps": w_ps, "ret": rng.choice(CONC), "decl": False})
+        w2 = fix_decl({"ps": [rng.choice(TYS) for _ in range(rng.choice((ar, ar, 3 - ar)))], "ret": rng.choice(TYS), "decl": False})
+        inner = [w1, w2] if rng.random() < 0.6 else [w2, w1]
+        a = fix_decl({"ps": [rng.choice(CONC) for _ in range(rng.choice((ar, 3 - ar, 0)))], "ret": rng.choice(CONC), "decl": False})
+        b = fix_decl({"ps": ["T"] * ar if rng.random() < 0.6 else [rng.choice(TYS) for _ in range(ar)],
+                      "ret": rng.choice(("int", "T", "bool")), "decl": False})
+        vs = [a, {"k": "set", "vs": inner}, b]
+        r = rng.random()
+        if r < 0.2:
+            vs = vs[1:]
+        elif r < 0.4:
+            vs = [vs[0], vs[2], vs[1]]
+        elif r < 0.5:
+            vs = vs[:2]
+        mode = "synth" if rng.random() < 0.6 else rng.choice(CONC)
+        cases.append({"vs": vs, "args": args, "mode": mode})
+    return cases
+
+
+def leaves(case: dict) -> list:
+    """[(name, fn variant)] in resolution order: v<k> for plain variants, v<k>_<j> inside a nested set."""
+    out = []
     for i, v in enumerate(case["vs"], 1):
+        if v["k"] == "set":
+            out += [(f"v{i}_{j}", w) for j, w in enumerate(v["vs"], 1)]
+        else:
+            out.append((f"v{i}", v))
+    return out
+
+
+def render(case: dict) -> str:
+    """Module with the function variants (v<k>, v<k>_<j>), nested overloaded functions (named v<k> too),
+    the overloaded f, main_o (call through f) and main_d_<leaf> (direct call) for every function."""
+    L = ['T = guppy.type_var("T")', ""]
+    for name, v in leaves(case):
+        tag = int(name[1:].replace("_", "0"))
         params = ", ".join(f"p{j}: {t}" for j, t in enumerate(v["ps"], 1))
         if v["decl"]:
-            L += ["@guppy.declare", f"def v{i}({params}) -> {v['ret']}: ...", ""]
+            L += ["@guppy.declare", f"def {name}({params}) -> {v['ret']}: ...", ""]
             continue
-        L += ["@guppy", f"def v{i}({params}) -> {v['ret']}:", f'    result("v{i}", {i})']
+        L += ["@guppy", f"def {name}({params}) -> {v['ret']}:", f'    result("{name}", {tag})']
         for j, t in enumerate(v["ps"], 1):
             if t != "T":
-                L.append(f'    result("v{i}.p{j}", p{j})')
+                L.append(f'    result("{name}.p{j}", p{j})')
         if v["ret"] == "T":
             L.append(f"    return p{v['ps'].index('T') + 1}")
         else:
-            L.append("    return " + RET_SRC[v["ret"]].format(i=100 + i))
+            L.append("    return " + RET_SRC[v["ret"]].format(i=100 + tag))
         L.append("")
+    for i, v in enumerate(case["vs"], 1):
+        if v["k"] == "set":
+            inner = ", ".join(f"v{i}_{j}" for j in range(1, len(v["vs"]) + 1))
+            L += [f"@guppy.overload({inner})", f"def v{i}(): ...", ""]
     names = ", ".join(f"v{i}" for i in range(1, len(case["vs"]) + 1))
     L += [f"@guppy.overload({names})", "def f(): ...", ""]
     args = ", ".join(ARG_SRC[a] for a in case["args"])
     ann = "" if case["mode"] == "synth" else f": {case['mode']}"
-    for entry, callee in [("main_o", "f")] + [(f"main_d{i}", f"v{i}") for i in range(1, len(case["vs"]) + 1)]:
+    for entry, callee in [("main_o", "f")] + [(f"main_d_{name}", name) for name, _ in leaves(case)]:
         L += ["@guppy", f"def {entry}({MAIN_PARAMS}) -> None:", f"    r{ann} = {callee}({args})",
               '    result("r", r)', ""]
     return "\n".join(L)
